@@ -9,7 +9,7 @@ exe=os.path.join(V,'tools/gen/gen')
 ENV=dict(os.environ, GOPROXY="off", GOSUMDB="off", GOTOOLCHAIN="local", GOWORK="off", GOFLAGS="-mod=mod")
 ROOTS=["GenV20","Cvss.Base.Go","Get","Set","Vector","lenVec","BaseScore","TemporalScore","EnvironmentalScore","Impact","Exploitability","tbl:order"]
 PROOTS=["GenP20","Cvss.Base.Go,Cvss.Gen.V20","ext:GenV20","pfn:ParseVector","pfn:split"]
-def case(name, edit, mode='V', extra_files=None, expect='refuse'):
+def case(name, edit, mode='V', extra_files=None, expect='refuse', must=None):
     d=SCRATCH + '/s/20'
     shutil.rmtree(SCRATCH + '/s', ignore_errors=True)
     shutil.copytree(os.path.join(REPO,'20'), d)
@@ -26,6 +26,8 @@ def case(name, edit, mode='V', extra_files=None, expect='refuse'):
     refused=p.returncode!=0
     msg=[l for l in p.stderr.split('\n') if 'unsupported' in l or 'panic' in l or 'unknown' in l][:1]
     ok = refused if expect=='refuse' else not refused
+    if ok and must and must not in p.stdout:
+        ok = False; msg = ['generated text lacks ' + must]
     print(f"{name}: {'ok' if ok else 'FAIL'} ({'refused' if refused else 'translated'}) {msg[0][:160] if msg else ''}")
     return ok
 def sub(a,b,count=1):
@@ -49,7 +51,7 @@ res.append(case('shadow-true', lambda s: s+'\nconst true = false\n'))
 res.append(case('dup-name', lambda s: s+'\nfunc (cvss20 CVSS20) roundTo1Decimal() float64 { return 0 }\n'))
 res.append(case('math-alias', lambda s: s.replace('\t"math"\n','\tm2 "math"\n').replace('math.','m2.') , expect='translate'))
 res.append(case('math-shadowed-by-var', lambda s: s.replace('\t"math"\n','\tm2 "math"\n').replace('math.','m2.').replace('func roundTo1Decimal(x float64) float64 {','type fakeMath struct{}\n\nfunc (fakeMath) Round(x float64) float64 { return m2.Round(x) + 1 }\n\nvar math fakeMath\n\nfunc roundTo1Decimal(x float64) float64 {').replace('m2.Round(x*10)','math.Round(x*10)')))
-res.append(case('untagged-zz_verif-file', lambda s: s, extra_files={'zz_verif_extra.go':'package gocvss20\n\nfunc init() { order[0] = []string{"XX"} }\n'}, expect='translate'))
+res.append(case('untagged-zz_verif-file', lambda s: s, extra_files={'zz_verif_extra.go':'package gocvss20\n\nfunc init() { order[0] = []string{"XX"} }\n'}, expect='translate', must='zz_verif_extra.go:init'))
 res.append(case('fallthrough', sub(base_ret,'switch cvss20.u0 {\n\tcase 1:\n\t\tfallthrough\n\tcase 2:\n\t\timpact = 0\n\t}\n\t'+base_ret)))
 res.append(case('switch-init', sub(base_ret,'switch x := cvss20.u0; x {\n\tcase 1:\n\t}\n\t'+base_ret)))
 res.append(case('method-value', sub(base_ret,'f := cvss20.Impact\n\t_ = f\n\t'+base_ret)))
@@ -58,6 +60,16 @@ res.append(case('generic', lambda s: s.replace(base_ret,base_ret.replace('0.6 * 
 res.append(case('blank-assign-call', lambda s: s.replace(base_ret,'_ = sideEffect()\n\t'+base_ret)+'\nvar counter int\n\nfunc sideEffect() int { counter++; return counter }\n', expect='translate'))
 res.append(case('dec', sub(base_ret,'n := 3\n\tn--\n\t_ = n\n\t'+base_ret)))
 res.append(case('neg-float-to-int', sub(base_ret,'n := int(impact - 20)\n\t_ = n\n\t'+base_ret), expect='translate'))
+# found by the machinery audit of round 4 (docs/AUDIT-round4.md)
+res.append(case('shadowing', sub(base_ret,'if impact > 100 {\n\t\timpact := 0.0\n\t\t_ = impact\n\t}\n\t'+base_ret)))
+res.append(case('local-pointer-alias', sub(base_ret,'p := &impact\n\t*p = 0\n\t'+base_ret)))
+res.append(case('nil-deref', sub(base_ret,'var q *float64\n\t_ = *q\n\t'+base_ret)))
+res.append(case('partial-redeclaration', sub(base_ret,'impact, t := exploitability, impact\n\t_ = t\n\t'+base_ret)))
+res.append(case('break-in-switch-in-range', sub(base_ret,'for _, k := range []uint8{1, 2} {\n\t\tswitch k {\n\t\tcase 1:\n\t\t\tbreak\n\t\t}\n\t\timpact = 0\n\t}\n\t'+base_ret)))
+res.append(case('make-with-length', sub(base_ret,'bb := make([]byte, 3)\n\t_ = bb\n\t'+base_ret)))
+res.append(case('second-presized-buffer', lambda s: s.replace('\tb := make([]byte, 0, l)\n','\tb := make([]byte, 0, l)\n\tif l > 1000 {\n\t\tb = make([]byte, 0, 4)\n\t}\n',1)))
+res.append(case('float32', sub(base_ret,'f32 := float32(impact) * 3\n\t_ = f32\n\t'+base_ret)))
+res.append(case('spoofed-build-tag-comment', lambda s: s, extra_files={'doc_notes.go':'/*\nNotes.\n//go:build verif\n*/\n\npackage gocvss20\n\nimport "os"\n\nfunc init() {\n\tif os.Getenv("X") != "" {\n\t\torder[0] = []string{"XX"}\n\t}\n}\n'}, expect='translate', must='doc_notes.go:init'))
 shutil.rmtree(SCRATCH, ignore_errors=True)
 allok = all(r for r in res) and None not in res
 print('translator self-test:', 'ALL OK' if allok else 'FAILURES')
